@@ -71,7 +71,8 @@ def make_units(tier):
                 A = dict(d, init=init, tag='A', size='F' if fs else 'S')
                 B = dict(kind='stream', init=('s' if (n % 2) else 'c'), tag='B', down=2, pub='manual' if n % 3 else 'gen',
                          credit='max', size='F' if fs else 'S', ending='flag')
-                bound = 2 if (tier == 'thorough' or (n % 23 == 0)) else 1
+                # thorough: bound 2 on the unfragmented byte-stream link, bound 1 under both policies elsewhere (sized to finish inside the budget)
+                bound = 2 if ((tier == 'thorough' and flavour == 'tcp' and fs is None) or (tier == 'quick' and n % 23 == 0)) else 1
                 K = 16 if bound == 2 else 1
                 for pol in (('deliver-first', 'app-first-batch') if bound == 1 else ('deliver-first',)):
                   for k in range(K):
